@@ -1,6 +1,7 @@
 (* C07 — step / run / verify level: potential, gas range, termination. *)
 From Coq Require Import List ZArith NArith Bool Lia.
-From Verif Require Import VM.
+From Verif Require Import GoInt VM VMRun.
+From VerifGen Require Import Checked.
 From C07 Require Import Model Hoare Ops.
 Import ListNotations.
 Open Scope Z_scope.
@@ -336,7 +337,7 @@ Section Term.
     rewrite (stack_cost_split (snd ck) (dstack s')) in Hpot'.
     pose proof (stack_cost_nonneg (skipn (snd ck) (dstack s'))).
     pose proof (stack_cost_nonneg (astack s')).
-    unfold item_cost in Hpred. unfold pot. repeat split; lia.
+    unfold item_cost in Hpred. unfold pot in *. repeat split; lia.
   Qed.
 
   Lemma fuel_bound_pos s : 0 <= runlimit s -> 1 <= fuel_bound s.
@@ -402,7 +403,112 @@ Section Term.
       rewrite (Heq f Hf). split; [|reflexivity].
       destruct (run cr cx (verify_fuel cx L) s1) as [[] s|e s].
       + cbn [snd]. destruct (false_result s); discriminate.
-      + destruct e; cbn [snd]; try discriminate. cbn in Hno. discriminate.
+      + destruct e; cbn [snd]; try discriminate; cbn in Hno; discriminate.
     - destruct Hp as (He & _). split; [|reflexivity]. cbn [snd]. congruence.
   Qed.
 End Term.
+
+(* ---------- the open finding: CHECKMULTISIG with zero public keys is free ---------- *)
+
+Definition dummy_crypto : crypto :=
+  {| h_sha256 := fun _ => []; h_sha3 := fun _ => []; h_ripemd160 := fun _ => [];
+     sig_verify := fun _ _ _ => false |}.
+Definition dummy_context : context :=
+  mk_context [173%N] [] None None None None None None None false.
+
+Definition msg32 : item := repeat 7%N 32.
+
+(* about to execute CHECKMULTISIG on  <msg> 0 0  *)
+Definition ms0_state : vmst :=
+  {| prog := [173%N]; pc := 0; nextpc := 0; runlimit := 1000; deferred := 0; expres := false;
+     vdata := []; dstack := [[]; []; msg32]; astack := [] |}.
+
+Definition ms0_after : vmst :=
+  {| prog := [173%N]; pc := 1; nextpc := 1; runlimit := 1047; deferred := -47; expres := false;
+     vdata := []; dstack := [[1%N]]; astack := [] |}.
+
+Lemma ms0_step : step dummy_crypto dummy_context (child_fn dummy_crypto dummy_context 0) ms0_state = ROk tt ms0_after.
+Proof. vm_compute. reflexivity. Qed.
+
+Lemma ms0_pot : pot ms0_after = pot ms0_state.
+Proof. vm_compute. reflexivity. Qed.
+
+Lemma ms0_guard : multisig0 ms0_state = true.
+Proof. vm_compute. reflexivity. Qed.
+
+Theorem multisig0_refutes :
+  ~ (forall cr cx fuel s s', 0 <= runlimit s ->
+       step cr cx (child_fn cr cx fuel) s = ROk tt s' -> pot s' + 1 <= pot s).
+Proof.
+  intros H. specialize (H dummy_crypto dummy_context 0%nat ms0_state ms0_after ltac:(cbn; lia) ms0_step).
+  rewrite ms0_pot in H. lia.
+Qed.
+
+Theorem costs_outside cr cx fuel s s' :
+  0 <= runlimit s -> multisig0 s = false ->
+  step cr cx (child_fn cr cx fuel) s = ROk tt s' -> pot s' + 1 <= pot s.
+Proof.
+  intros Hr Hg Hs. pose proof (step_potential cr cx fuel s Hr) as H. rewrite Hs in H.
+  unfold min_cost in H. rewrite Hg in H. tauto.
+Qed.
+
+(* the guard is decidable and non-trivially satisfiable the other way: a state about to run ADD *)
+Example guard_example :
+  multisig0 {| prog := [147%N]; pc := 0; nextpc := 0; runlimit := 10; deferred := 0; expres := false;
+               vdata := []; dstack := [[1%N]; [2%N]]; astack := [] |} = false.
+Proof. vm_compute. reflexivity. Qed.
+
+Example co_sane_example : co_sane (mk_context [81%N] [] None None None None None None None true).
+Proof.
+  unfold co_sane, mk_context. cbn [cx_checkoutput]. intros f idx amt asset vmv code alt ex [= <-].
+  unfold test_checkoutput. destruct (5 <? idx)%N; discriminate.
+Qed.
+
+(* ---------- validator bookkeeping ---------- *)
+
+Lemma wrap_small x : - 2 ^ 63 <= x <= 2 ^ 63 - 1 -> wrap I64 x = x.
+Proof. intros H. apply in_range_wrap. unfold in_range, tmin, tmax. apply andb_true_intro. split; apply Z.leb_le; lia. Qed.
+
+Lemma SubInt64_small a b : 0 <= b <= a -> a <= 2 ^ 63 - 1 -> SubInt64 a b = Some (a - b, true).
+Proof.
+  intros Hb Ha. unfold SubInt64, ocmp, obind2, oret, gadd, gsub.
+  rewrite (wrap_small (- 2 ^ 63 + b)) by lia. rewrite (wrap_small (a - b)) by lia.
+  assert (H1 : (a <? - 2 ^ 63 + b) = false) by (apply Z.ltb_ge; lia).
+  assert (H2 : (b <? 0) = false) by (apply Z.ltb_ge; lia).
+  rewrite H1, H2. destruct (b >? 0); reflexivity.
+Qed.
+
+Definition gs_inv (total : Z) (g : gas_state) : Prop :=
+  0 <= g_left g /\ 0 <= g_used g /\ g_left g + g_used g = total.
+
+Lemma update_usage_spec total g gl : total <= 2 ^ 63 - 1 -> gs_inv total g -> 0 <= gl <= g_left g ->
+  exists g', (update_usage g gl = UOk g' \/ update_usage g gl = UErrOverCredit g') /\
+             gs_inv total g' /\ g_left g' = gl /\ g_used g' = g_used g + (g_left g - gl) /\
+             g_storage g' = g_storage g.
+Proof.
+  intros Ht (H1 & H2 & H3) Hgl. unfold update_usage.
+  assert (Hlt : (gl <? 0) = false) by (apply Z.ltb_ge; lia). rewrite Hlt.
+  rewrite SubInt64_small by lia. rewrite wrap_small by lia.
+  eexists. split.
+  - cbn [g_left g_storage]. destruct (gl <? g_storage g); [right|left]; reflexivity.
+  - unfold gs_inv. cbn [g_left g_used g_storage]. repeat split; lia.
+Qed.
+
+Definition vres_ok (total : Z) (r : vres) : Prop :=
+  match r with
+  | VDone g' | VVmErr _ g' | VGasErr (UErrOverCredit g') => gs_inv total g'
+  | VGasErr _ => False
+  end.
+
+Theorem validate_calls_ok cr total calls : total <= 2 ^ 63 - 1 ->
+  forall g, gs_inv total g -> vres_ok total (validate_calls cr calls g).
+Proof.
+  intros Ht. induction calls as [|c rest IH]; intros g Hg; cbn [validate_calls].
+  - exact Hg.
+  - pose proof (gas_range cr (vc_cx c) (vc_fuel c) (vc_state c) (vc_args c) (g_left g) (proj1 Hg)) as Hr.
+    destruct (verify cr (vc_cx c) (vc_fuel c) (vc_state c) (vc_args c) (g_left g)) as [gl [e|]]; cbn [fst] in Hr.
+    + exact Hg.
+    + destruct (update_usage_spec total g gl Ht Hg Hr) as (g' & [Hu | Hu] & Hinv & _); rewrite Hu.
+      * apply IH. exact Hinv.
+      * exact Hinv.
+Qed.
